@@ -1,4 +1,5 @@
 import SockModel.Model.TlsLemmas
+import SockModel.Model.Deadline
 import SockModel.Model.GenTlsWorld
 import SockModel.Generated.Tls
 import SockModel.Basic.TieTactic
@@ -25,14 +26,20 @@ def resOfOut {α β : Type} (f : α → β) : Out α → Gen.Res β
 theorem tdiv_ns (x : Int) : Int.tdiv (x * 1000000) 1000000 = x := by
   rw [Int.mul_tdiv_cancel x (by decide)]
 
-/-- the generated `DeadlineLimited` arithmetic (ns) on clock readings that are whole milliseconds is the model's
-`remainingMs` -/
+/-- the generated `DeadlineLimited::Remaining` is the model's, whatever its spelling (shape-independent `tie_arith`) -/
+theorem gen_remaining (now dl : Int) : Gen.DeadlineLimited_Remaining now dl = (Deadline.Deadline.limited now dl).remaining := by
+  simp only [Gen.DeadlineLimited_Remaining, Deadline.Deadline.remaining, Deadline.toMs, Deadline.nsPerMs]
+  tie_arith
+
+/-- ... which, on clock readings that are whole milliseconds, is the model's `remainingMs` -/
 theorem rem_ns (a d : Int) : Gen.DeadlineLimited_Remaining (a * 1000000) (d * 1000000) = remainingMs d a := by
   have h : d * 1000000 - a * 1000000 = (d - a) * 1000000 := by omega
-  simp only [Gen.DeadlineLimited_Remaining, remainingMs, h, tdiv_ns]
+  rw [gen_remaining]
+  simp only [Deadline.Deadline.remaining, Deadline.toMs, Deadline.nsPerMs, remainingMs, h, tdiv_ns]
 
 theorem deadline_ns (b t : Int) : Gen.DeadlineLimited_deadline (b * 1000000) t = (b + t) * 1000000 := by
-  simp only [Gen.DeadlineLimited_deadline]; omega
+  simp only [Gen.DeadlineLimited_deadline]
+  tie_arith
 
 theorem twst_eta (w : TWSt σ ω) (g : Glue) (h : g = w.s.g) (ww : ω) :
     ({ w with s := { w.s with g := g, w := ww } } : TWSt σ ω) = { w with s := { w.s with w := ww } } := by subst h; rfl
